@@ -1,5 +1,6 @@
 import SdbModel.Model.Reconciler
 import SdbModel.Props.C16
+import SdbModel.Lemmas.ReconcilerMeasure
 
 /-!
 # C14 — Reconciler converges: target equals table once failures stop
@@ -11,14 +12,33 @@ import SdbModel.Props.C16
 > forgotten, whatever the round size, rate limits, batch or single operations,
 > or retry timing.
 
-PARTIAL.  The whole-history convergence statement is decided by the
-correspondence run and the convergence oracle (and is violated by known finding
-K4).  Proved here over `Model.Reconciler`, for all states and arguments, are the
-step-level facts convergence is built from: the change stream hands the round
-every object changed since the iterator's position and every retained deletion
-(nothing is skipped), a successful operation calls the target with the object's
-data and clears its retry state, a failed one leaves the object queued for a
-retry that is due within the maximal backoff (nothing is forgotten).
+> "… the last successful operation for every live object is an Update with its
+> latest contents and its status is Done, and the last operation for every
+> removed object is a successful Delete."
+
+Proved over `Model.Reconciler` (single operations, no writes from inside an
+Update: `injects = []`), for ALL reachable states, configurations and fuels:
+
+* an invariant `WInv` (`C14_inv_initial`, `C14_inv_userPut` … `C14_inv_advance`,
+  `C14_inv_reachable`) that says nothing is forgotten (`C14_inv_nothing_forgotten`,
+  `C14_idle_nothing_forgotten`) and that the retry timer is armed exactly for the
+  earliest retry, which is due within the maximal backoff
+  (`C14_inv_timer_armed_for_head`);
+* progress: once nothing fails, every triggered round decreases an explicit
+  measure, so the loop goes idle with explicit fuel
+  (`C14_round_decreases_measure`, `C14_quiesce_goes_idle`);
+* convergence: later than the maximal backoff after failures stop the idle
+  state has target = table (`C14_converged_quiesce` — any size, any round
+  size ≥ 1; `C14_converged_when_idle` — through `advance`, any fuel, given the
+  final state is idle; `C14_converged_advance_partial` — `advance` with explicit
+  fuel, limited to ≤ 10 queued retries by the model's inner fuel 64).
+
+The ONE hypothesis beyond the configuration's own validity: no foreign writer
+touches an object while its status is Error (constructor `touch` of
+`C14Reachable`).  Without it the statement is false of the model and of the
+code — known finding K4, `C14_touch_on_error_refuted`,
+`C14_inv_touch_on_error_refuted`.  The step-level theorems of the first version
+of this file are kept below.
 -/
 namespace Sdb
 open Rec
@@ -200,7 +220,277 @@ theorem C14_failed_update_requeued (r : R) (obj orig : RObj) (rev sid : Nat) (cu
   simp only [hcur, hrev, if_true]
   exact retryAdd_queued _ orig _ rev obj.id hid
 
+/-! ## the invariant of the reachable states: nothing is forgotten -/
+
+/-- the states reachable from the initial one by user writes and deletes, foreign
+    status writes on objects whose status is NOT Error (known finding K4: see
+    `C14_touch_on_error_refuted`), switching failures on and off, running the
+    loop (`quiesce`, any fuel) and letting time pass (`advance`, any fuel) -/
+inductive C14Reachable : R → Prop
+  | init (c : Cfg) : C14Reachable { cfg := c }
+  | put {r : R} (id data : Nat) : C14Reachable r → C14Reachable (r.userPut id data)
+  | del {r : R} (id : Nat) : C14Reachable r → C14Reachable (r.delObj id)
+  | touch {r : R} (id : Nat) : C14Reachable r → (∀ o, r.get id = some o → o.kind ≠ .error) → C14Reachable (r.touch id)
+  | fail {r : R} (l : List Nat) : C14Reachable r → C14Reachable { r with failing := l }
+  | quiesce {r : R} (fuel : Nat) : C14Reachable r → C14Reachable (r.quiesce fuel)
+  | advance {r : R} (ms fuel : Nat) : C14Reachable r → C14Reachable (r.advance ms fuel)
+
+/-- the invariant `WInv` (bookkeeping `InvL`, iterator position `Sync`, exact
+    retry timer and retry times `QInv`) holds in the initial state … -/
+theorem C14_inv_initial (c : Cfg) : WInv { cfg := c } := WInv.init c
+
+/-- … is preserved by a user write, … -/
+theorem C14_inv_userPut (r : R) (id data : Nat) (h : WInv r) : WInv (r.userPut id data) := h.userPut id data
+
+/-- … a user delete, … -/
+theorem C14_inv_delObj (r : R) (id : Nat) (h : WInv r) : WInv (r.delObj id) := h.delObj id
+
+/-- … a foreign status write on an object that is not in Error state, … -/
+theorem C14_inv_touch_not_error (r : R) (id : Nat) (h : WInv r) (hne : ∀ o, r.get id = some o → o.kind ≠ .error) :
+    WInv (r.touch id) := h.touch id hne
+
+/-- … switching failures, … -/
+theorem C14_inv_set_failing (r : R) (l : List Nat) (h : WInv r) : WInv { r with failing := l } := h.setFailing l
+
+/-- … one reconciliation round, … -/
+theorem C14_inv_round (r : R) (h : WInv r) : WInv r.round := h.round
+
+/-- … running the loop until it goes idle or the fuel ends, … -/
+theorem C14_inv_quiesce (r : R) (fuel : Nat) (h : WInv r) : WInv (r.quiesce fuel) := h.quiesce fuel
+
+/-- … and letting time pass. -/
+theorem C14_inv_advance (r : R) (ms fuel : Nat) (h : WInv r) : WInv (r.advance ms fuel) := h.advance ms fuel
+
+/-- hence it holds in every reachable state -/
+theorem C14_inv_reachable {r : R} (h : C14Reachable r) : WInv r := by
+  induction h with
+  | init c => exact WInv.init c
+  | put id data _ ih => exact ih.userPut id data
+  | del id _ ih => exact ih.delObj id
+  | touch id _ hne ih => exact ih.touch id hne
+  | fail l _ ih => exact ih.setFailing l
+  | quiesce fuel _ ih => exact ih.quiesce fuel
+  | advance ms fuel _ ih => exact ih.advance ms fuel
+
+/-- **nothing is forgotten** (between any two rounds): every live object is
+    Done and the last call logged for it is a successful Update with its
+    current data, or it still is to be delivered to the loop (Pending, revision
+    beyond the iterator), or it is Error and a retry of exactly this version is
+    queued, due within the maximal backoff; every retained deletion is still to
+    be delivered, or its Delete is queued for a retry, or the last call logged
+    for it is a successful Delete -/
+theorem C14_inv_nothing_forgotten {r : R} (h : WInv r) :
+    (∀ o ∈ r.objs,
+      (o.kind = .done ∧ lastCall r.log o.id = some ⟨"U", o.id, o.data, true⟩) ∨
+      ((o.kind = .pending ∨ o.kind = .refreshing) ∧ o.rev > r.itRev) ∨
+      (o.kind = .error ∧ ∃ it ∈ r.items, it.id = o.id ∧ it.delete = false ∧ it.rev = o.rev ∧ it.inQueue = true ∧
+        it.retryAt ≤ r.now + r.cfg.maxB)) ∧
+    (∀ d ∈ r.dels,
+      d.2 > r.itDelRev ∨
+      (∃ it ∈ r.items, it.id = d.1.id ∧ it.delete = true ∧ it.inQueue = true ∧ it.retryAt ≤ r.now + r.cfg.maxB) ∨
+      (∃ c, lastCall r.log d.1.id = some c ∧ c.op = "D" ∧ c.ok = true)) := by
+  refine ⟨fun o ho => ?_, fun d hd => ?_⟩
+  · obtain ⟨a, b, c⟩ := h.rinv.inv.objOK o ho
+    cases hk : o.kind with
+    | done => exact Or.inl ⟨rfl, (a hk).1⟩
+    | error =>
+      rcases b hk with ⟨it, hit, b1, b2, b3, b4⟩ | ⟨res, hres, _⟩
+      · exact Or.inr (Or.inr ⟨rfl, it, hit, b1, b2, b3, b4, h.q.times it hit⟩)
+      · cases hres
+    | pending =>
+      rcases c (Or.inl hk) with c | ⟨res, hres, _⟩
+      · exact Or.inr (Or.inl ⟨Or.inl rfl, c⟩)
+      · cases hres
+    | refreshing =>
+      rcases c (Or.inr hk) with c | ⟨res, hres, _⟩
+      · exact Or.inr (Or.inl ⟨Or.inr rfl, c⟩)
+      · cases hres
+  · rcases h.rinv.inv.delOK d hd with a | ⟨it, hit, b1, b2, b3⟩ | a
+    · exact Or.inl a
+    · exact Or.inr (Or.inl ⟨it, hit, b1, b2, b3, h.q.times it hit⟩)
+    · exact Or.inr (Or.inr a.1)
+
+/-- in an IDLE state (nothing triggers the loop: states returned by `quiesce`
+    with enough fuel) nothing is left to be delivered: every live object is Done
+    with the target or Error with a queued retry, every retained deletion was
+    applied or has a queued retry -/
+theorem C14_idle_nothing_forgotten {r : R} (h : WInv r) (hidle : r.triggered = false) :
+    (∀ o ∈ r.objs,
+      (o.kind = .done ∧ lastCall r.log o.id = some ⟨"U", o.id, o.data, true⟩) ∨
+      (o.kind = .error ∧ ∃ it ∈ r.items, it.id = o.id ∧ it.delete = false ∧ it.rev = o.rev ∧ it.inQueue = true)) ∧
+    (∀ d ∈ r.dels,
+      (∃ c, lastCall r.log d.1.id = some c ∧ c.op = "D" ∧ c.ok = true) ∨
+      (∃ it ∈ r.items, it.id = d.1.id ∧ it.delete = true ∧ it.inQueue = true)) :=
+  h.rinv.idle_accounted hidle
+
+/-- the retry timer is armed exactly for the earliest queued retry (or has fired
+    for one that is due); no retry is due later than the maximal backoff from now -/
+theorem C14_inv_timer_armed_for_head {r : R} (h : WInv r) :
+    (∀ hd, r.head = some hd → r.timer = .armed hd.retryAt ∨ (r.timer = .fired ∧ hd.retryAt ≤ r.now)) ∧
+    (r.head = none → r.timer = .none ∨ r.timer = .stopped) ∧
+    (∀ it ∈ r.items, it.inQueue = true ∧ it.retryAt ≤ r.now + r.cfg.maxB) :=
+  ⟨h.q.tmSome, h.q.tmNone, fun it hit => ⟨h.rinv.items_queued it hit, h.q.times it hit⟩⟩
+
+/-! ## convergence -/
+
+/-- **target equals table.**  From any state satisfying the invariant in which
+    no operation fails any more (`failing = []`), let more than the maximal
+    backoff pass (`advance ms fuel`, `ms > maxB`, no further user action).  If
+    the loop has gone idle by then (the fuel sufficed: `C14_advance_goes_idle_partial`),
+    every live object is Done and the last call logged for it is a successful
+    Update with its current data, the last call logged for every retained
+    deletion is a successful Delete, no retry is left and the retry
+    low-watermark is 0.  Any round size, any backoff, any fuel. -/
+theorem C14_converged_when_idle {r : R} (h : WInv r) (hf : r.failing = []) (ms fuel : Nat) (hms : r.cfg.maxB < ms)
+    (hidle : (r.advance ms fuel).triggered = false) :
+    (∀ o ∈ (r.advance ms fuel).objs, o.kind = .done ∧
+      lastCall (r.advance ms fuel).log o.id = some ⟨"U", o.id, o.data, true⟩) ∧
+    (∀ d ∈ (r.advance ms fuel).dels, ∃ c, lastCall (r.advance ms fuel).log d.1.id = some c ∧ c.op = "D" ∧ c.ok = true) ∧
+    (r.advance ms fuel).items = [] ∧ (r.advance ms fuel).lowWatermark = 0 := by
+  obtain ⟨hs, hnow⟩ := (h.toSInv hf).advance ms fuel
+  exact idle_converged hs.rinv hs.q (by rw [hnow]; omega) hidle
+
+/-- the same for the loop run at a fixed time: once every retry time lies in
+    the past and the loop is idle, target equals table -/
+theorem C14_converged_idle_state {r : R} {B : Nat} (h : WInv r) (hB : ∀ it ∈ r.items, it.retryAt ≤ B) (hnow : B < r.now)
+    (hidle : r.triggered = false) :
+    (∀ o ∈ r.objs, o.kind = .done ∧ lastCall r.log o.id = some ⟨"U", o.id, o.data, true⟩) ∧
+    (∀ d ∈ r.dels, ∃ c, lastCall r.log d.1.id = some c ∧ c.op = "D" ∧ c.ok = true) ∧
+    r.items = [] ∧ r.lowWatermark = 0 :=
+  idle_converged h.rinv ⟨h.q.tmSome, h.q.tmNone, hB, h.q.pw, h.q.objid⟩ hnow hidle
+
+/-! ## progress: the loop goes idle (explicit fuel) -/
+
+/-- **progress.**  Once nothing fails, every triggered round strictly decreases
+    the measure `Mz` of the outstanding work (3·(2 per object still to be
+    processed + 1 per object / deletion still to be passed + 2 per queued retry)
+    + the two refresh flags); the round size must be positive, as
+    `reconciler.Config.validate` demands. -/
+theorem C14_round_decreases_measure {r : R} (h : WInv r) (hf : r.failing = []) (hrs : 1 ≤ r.cfg.roundSize)
+    (htr : r.triggered = true) : Mz r.round < Mz r :=
+  mz_round h.rinv h.q hf hrs htr
+
+/-- hence `quiesce` reaches an idle state when its fuel exceeds
+    3·(2·#objects + #retained deletions + 2·#retry items) + 2, whatever the round size -/
+theorem C14_quiesce_goes_idle {r : R} (h : WInv r) (hf : r.failing = []) (hrs : 1 ≤ r.cfg.roundSize) (fuel : Nat)
+    (hfuel : 3 * (2 * r.objs.length + r.dels.length + 2 * r.items.length) + 2 < fuel) :
+    (r.quiesce fuel).triggered = false :=
+  ((h.toSInv hf).quiesce_idle hrs fuel (by have := mz_le_sizes r; omega)).1
+
+/-- **convergence, any size.**  From any state satisfying the invariant in which
+    nothing fails any more: at any time `T` later than the maximal backoff from
+    now, running the loop with fuel beyond 3·(2·#objects + #deletions +
+    2·#retries) + 2 ends idle with target = table: every live object is Done and
+    its last logged call is a successful Update with its current data, the last
+    logged call of every retained deletion is a successful Delete, no retry is
+    left, the retry low-watermark is 0.  Any round size ≥ 1, any backoff. -/
+theorem C14_converged_quiesce {r : R} (h : WInv r) (hf : r.failing = []) (hrs : 1 ≤ r.cfg.roundSize) (T fuel : Nat)
+    (hT : r.now + r.cfg.maxB < T)
+    (hfuel : 3 * (2 * r.objs.length + r.dels.length + 2 * r.items.length) + 2 < fuel) :
+    let f := ({ r with now := T } : R).quiesce fuel
+    f.triggered = false ∧
+    (∀ o ∈ f.objs, o.kind = .done ∧ lastCall f.log o.id = some ⟨"U", o.id, o.data, true⟩) ∧
+    (∀ d ∈ f.dels, ∃ c, lastCall f.log d.1.id = some c ∧ c.op = "D" ∧ c.ok = true) ∧
+    f.items = [] ∧ f.lowWatermark = 0 := by
+  intro f
+  have h0 : SInv (r.now + r.cfg.maxB) ({ r with now := T } : R) := (h.toSInv hf).setNow T (by omega)
+  have hidle := (h0.quiesce_idle (r := { r with now := T }) hrs fuel (by have := mz_le_sizes r; exact Nat.lt_of_le_of_lt this hfuel)).1
+  obtain ⟨h1, e1⟩ := h0.quiesce fuel
+  exact ⟨hidle, idle_converged h1.rinv h1.q (by rw [e1]; exact hT) hidle⟩
+
+/-- `advance` (which wakes the loop at every timer instant, each time with the
+    model's inner fuel 64) ends idle when started in an idle state with at most
+    10 queued retries and fuel beyond 6·#retries.  PARTIAL: states with more
+    queued retries need more than the inner fuel 64 that `Model.Reconciler.advance`
+    hard-codes; `C14_converged_quiesce` has no such bound. -/
+theorem C14_advance_goes_idle_partial {r : R} (h : WInv r) (hf : r.failing = []) (hrs : 1 ≤ r.cfg.roundSize)
+    (hidle : r.triggered = false) (ms fuel : Nat) (h64 : 6 * r.items.length < 64) (hfuel : 6 * r.items.length < fuel) :
+    (r.advance ms fuel).triggered = false := by
+  have hm := h.rinv.mz_idle hidle
+  exact (h.toSInv hf).advance_idle hrs hidle ms fuel (by omega) (by omega)
+
+/-- **convergence through `advance`** (PARTIAL in the same sense): from an idle
+    state satisfying the invariant in which nothing fails any more, with at most
+    10 queued retries, after more than the maximal backoff (`fuel > 6·#retries`)
+    the loop is idle and target = table -/
+theorem C14_converged_advance_partial {r : R} (h : WInv r) (hf : r.failing = []) (hrs : 1 ≤ r.cfg.roundSize)
+    (hidle : r.triggered = false) (ms fuel : Nat) (hms : r.cfg.maxB < ms)
+    (h64 : 6 * r.items.length < 64) (hfuel : 6 * r.items.length < fuel) :
+    (r.advance ms fuel).triggered = false ∧
+    (∀ o ∈ (r.advance ms fuel).objs, o.kind = .done ∧
+      lastCall (r.advance ms fuel).log o.id = some ⟨"U", o.id, o.data, true⟩) ∧
+    (∀ d ∈ (r.advance ms fuel).dels, ∃ c, lastCall (r.advance ms fuel).log d.1.id = some c ∧ c.op = "D" ∧ c.ok = true) ∧
+    (r.advance ms fuel).items = [] ∧ (r.advance ms fuel).lowWatermark = 0 := by
+  have hi := C14_advance_goes_idle_partial h hf hrs hidle ms fuel h64 hfuel
+  exact ⟨hi, C14_converged_when_idle h hf ms fuel hms hi⟩
+
+/-! ## known finding K4: a foreign write on an Error object loses the retry -/
+
+/-- the K4 scenario, first half: put; the Update fails; the loop marks the
+    object Error and queues a retry -/
+def c14K4pre : R := ({ (({} : R).userPut 1 7) with failing := [1] } : R).quiesce 10
+
+/-- second half: a foreign writer touches the object; failures stop -/
+def c14K4mid : R := { (c14K4pre.touch 1).quiesce 10 with failing := [] }
+
+/-- … and time passes -/
+def c14K4 : R := c14K4mid.advance 5000 10
+
+/-- **refuted without the hypothesis on `touch`**: in the K4 scenario the loop is
+    idle, nothing fails, five times the maximal backoff has passed, the retry
+    DID run and succeeded (the last call for the object is a successful Update)
+    — but its result was dropped: the object stays Error for ever, with no retry
+    queued -/
+theorem C14_touch_on_error_refuted :
+    c14K4.triggered = false ∧ c14K4.failing = [] ∧ c14K4.now = 5000 ∧ c14K4.cfg.maxB = 1000 ∧
+    c14K4.objs.map (·.kind) = [.error] ∧ c14K4.items.length = 0 ∧
+    lastCall c14K4.log 1 = some ⟨"U", 1, 7, true⟩ := by decide +kernel
+
+/-- hence the invariant is NOT preserved by a foreign write on an Error object -/
+theorem C14_inv_touch_on_error_refuted : ¬ ∀ (r : R) (id : Nat), WInv r → WInv (r.touch id) := by
+  intro hall
+  have h2 : WInv c14K4pre := (((WInv.init {}).userPut 1 7).setFailing [1]).quiesce 10
+  have h4 : WInv c14K4mid := ((hall _ 1 h2).quiesce 10).setFailing []
+  have hc := C14_converged_when_idle h4 rfl 5000 10 (by decide +kernel) (by decide +kernel)
+  have hk := hc.1
+  have hl : (c14K4mid.advance 5000 10).objs.map (·.kind) = [.error] := by decide +kernel
+  generalize (c14K4mid.advance 5000 10).objs = l at hk hl
+  cases l with
+  | nil => simp at hl
+  | cons o tl =>
+    have := (hk o (List.mem_cons_self ..)).1
+    simp only [List.map_cons, List.cons.injEq] at hl
+    rw [hl.1] at this; cases this
+
 /-! ## non-vacuity -/
+
+/-- a reachable, non-trivial state: one object Done, one Error with a queued retry, one deletion applied -/
+def c14Ex : R :=
+  let r : R := { (((({} : R).userPut 1 7).userPut 2 8).userPut 3 9) with failing := [2] }
+  ((r.quiesce 10).delObj 3).quiesce 10
+
+example : C14Reachable c14Ex :=
+  .quiesce 10 (.del 3 (.quiesce 10 (.fail [2] (.put 3 9 (.put 2 8 (.put 1 7 (.init {})))))))
+
+example : WInv c14Ex := C14_inv_reachable
+  (.quiesce 10 (.del 3 (.quiesce 10 (.fail [2] (.put 3 9 (.put 2 8 (.put 1 7 (.init {}))))))))
+
+example : c14Ex.triggered = false ∧ c14Ex.objs.map (·.kind) = [.done, .error] ∧ c14Ex.items.length = 1 ∧ c14Ex.dels.length = 1 := by
+  decide +kernel
+
+/-- the hypotheses of `C14_converged_when_idle` are satisfiable: after the failure stops the loop is idle at the end -/
+example : (({ c14Ex with failing := [] } : R).advance 1001 10).triggered = false ∧
+    (({ c14Ex with failing := [] } : R).advance 1001 10).objs.map (·.kind) = [.done, .done] := by decide +kernel
+
+/-- the hypotheses of `C14_converged_advance_partial` hold of the example state -/
+example : ({ c14Ex with failing := [] } : R).triggered = false ∧ 1 ≤ ({ c14Ex with failing := [] } : R).cfg.roundSize ∧
+    6 * ({ c14Ex with failing := [] } : R).items.length < 64 ∧ ({ c14Ex with failing := [] } : R).cfg.maxB < 1001 := by decide +kernel
+
+/-- … and of `C14_converged_quiesce` (fuel 30 > 3·(2·2 + 1 + 2·1) + 2 = 23) -/
+example : 3 * (2 * c14Ex.objs.length + c14Ex.dels.length + 2 * c14Ex.items.length) + 2 < 30 ∧ c14Ex.now + c14Ex.cfg.maxB < 5000 := by
+  decide +kernel
+
+/-! ## non-vacuity (step level) -/
 example :
     let r : R := ({} : R).userPut 1 7
     r.get 1 = some { id := 1, data := 7, kind := .pending, sid := 1, other := 0, rev := 1 } ∧ r.tableRev = 1 ∧
